@@ -344,8 +344,23 @@ pub mod c19_alias {
         let h2 = hash_kmers(s2, c.k);
         let got = find_kmer_matches_seq2_hashed(s1, &h2, c.k);
         ensure!(got == truth, "{}: find_kmer_matches_seq2_hashed = {:?}, all equal k-mer pairs sorted = {:?}", ctx, got, truth);
+        // the prehashed argument is a public map type: one whose position lists are in another order (filled
+        // right to left, merged from chunks) describes the same k-mers; the result is "the sorted set" all the same
+        let mut r1 = hash_kmers(s1, c.k);
+        for v in r1.values_mut() {
+            v.reverse();
+        }
+        let got = find_kmer_matches_seq1_hashed(&r1, s2, c.k);
+        ensure!(got == truth, "{}: find_kmer_matches_seq1_hashed with a map whose position lists are descending = {:?}, all equal k-mer pairs sorted = {:?}", ctx, got, truth);
+        let mut r2 = hash_kmers(s2, c.k);
+        for v in r2.values_mut() {
+            v.reverse();
+        }
+        let got = find_kmer_matches_seq2_hashed(s1, &r2, c.k);
+        ensure!(got == truth, "{}: find_kmer_matches_seq2_hashed with a map whose position lists are descending = {:?}, all equal k-mer pairs sorted = {:?}", ctx, got, truth);
         let mut pass = Pass::new(!truth.is_empty());
         alias_classes(&mut pass, a, b);
+        pass.add_if(r2.values().any(|v| v.len() >= 2) && !truth.is_empty(), "caller-ordered map with a repeated k-mer");
         pass.add_if(s1.is_empty() || s2.is_empty(), "empty view");
         Ok(pass)
     }
@@ -627,12 +642,15 @@ pub fn extend(props: &mut [Property]) {
             "C01" => p.subs.push(Box::new(PropSub { name: "C01/aliased-arguments", quick: 60_000, thorough: 1_200_000, shards_quick: 8, shards_thorough: 16, strat: c01_alias::strat, check: c01_alias::check, must_reach: &["same start address, different lengths", "the very same slice twice", "overlapping views"], watch: false })),
             "C02" => p.subs.push(Box::new(PropSub { name: "C02/aliased-arguments", quick: 60_000, thorough: 1_200_000, shards_quick: 8, shards_thorough: 16, strat: c02_alias::strat, check: crate::props::c02::check, must_reach: &["same start address, different lengths", "the very same slice twice", "overlapping views"], watch: true })),
             "C07" => p.subs.push(Box::new(PropSub { name: "C07/iterator-protocol", quick: 60_000, thorough: 1_200_000, shards_quick: 8, shards_thorough: 16, strat: c07_proto::strat, check: c07_proto::check, must_reach: &["nth/skip/step_by on an already advanced iterator", "count/last/fold after next()"], watch: true })),
+            "C09" => {
+                p.subs.push(Box::new(PropSub { name: "C09/iterator-protocol", quick: 40_000, thorough: 800_000, shards_quick: 8, shards_thorough: 16, strat: c09_proto::strat, check: c09_proto::check, must_reach: &["nth/skip/step_by on an already advanced iterator", "count/last/fold after next()", "clone() of an already advanced iterator drained"], watch: true }));
+                p.subs.push(Box::new(PropSub { name: "C09/aliased-arguments", quick: 80_000, thorough: 1_600_000, shards_quick: 8, shards_thorough: 16, strat: c09_alias::strat, check: c09_alias::check, must_reach: &["same start address, different lengths", "the very same slice twice", "overlapping views"], watch: false }));
+            }
             "C10" => p.subs.push(Box::new(PropSub { name: "C10/iterator-protocol", quick: 40_000, thorough: 800_000, shards_quick: 8, shards_thorough: 16, strat: c09_proto::strat, check: c09_proto::check, must_reach: &["nth/skip/step_by on an already advanced iterator", "count/last/fold after next()", "pattern longer than one u8 block"], watch: true })),
             "C11" => p.subs.push(Box::new(PropSub { name: "C11/iterator-protocol", quick: 40_000, thorough: 800_000, shards_quick: 8, shards_thorough: 16, strat: io_proto::strat, check: io_proto::check, must_reach: &["nth/skip/step_by on an already advanced iterator", "count/last/fold after next()", "fasta records", "fastq records"], watch: true })),
             "C12" => p.subs.push(Box::new(PropSub { name: "C12/iterator-protocol", quick: 40_000, thorough: 800_000, shards_quick: 8, shards_thorough: 16, strat: io_proto::strat, check: io_proto::check, must_reach: &["nth/skip/step_by on an already advanced iterator", "indexed fasta read_iter"], watch: true })),
             "C13" => p.subs.push(Box::new(PropSub { name: "C13/iterator-protocol", quick: 40_000, thorough: 800_000, shards_quick: 8, shards_thorough: 16, strat: io_proto::strat, check: io_proto::check, must_reach: &["nth/skip/step_by on an already advanced iterator", "bed records", "gff records"], watch: true })),
             "C08" => p.subs.push(Box::new(PropSub { name: "C08/iterator-protocol", quick: 80_000, thorough: 1_600_000, shards_quick: 8, shards_thorough: 16, strat: c08_proto::strat, check: c08_proto::check, must_reach: &["nth/skip/step_by on an already advanced iterator", "count/last/fold after next()", "overlapping occurrences"], watch: true })),
-            "C09" => p.subs.push(Box::new(PropSub { name: "C09/aliased-arguments", quick: 80_000, thorough: 1_600_000, shards_quick: 8, shards_thorough: 16, strat: c09_alias::strat, check: c09_alias::check, must_reach: &["same start address, different lengths", "the very same slice twice", "overlapping views"], watch: false })),
             "C18" => p.subs.push(Box::new(PropSub { name: "C18/iterator-protocol", quick: 80_000, thorough: 1_600_000, shards_quick: 8, shards_thorough: 16, strat: c18_proto::strat, check: c18_proto::check, must_reach: &["nth/skip/step_by on an already advanced iterator", "count/last/fold after next()", "step_by(>=2)"], watch: true })),
             "C19" => {
                 p.subs.push(Box::new(PropSub { name: "C19/aliased-arguments", quick: 80_000, thorough: 1_600_000, shards_quick: 8, shards_thorough: 16, strat: c19_alias::strat, check: c19_alias::check, must_reach: &["same start address, different lengths", "the very same slice twice", "overlapping views"], watch: false }));
